@@ -1,5 +1,5 @@
 """C16 -- invalid objects are refused, never silently mis-serialized (engines C + B)."""
-from ..genabs import lattice, skel
+from ..genabs import lattice, objrules, skel
 from ..genabs.wire import Unrecognised
 from ._genprops import canon_write, each_class, first_diff, ob, only_guards, strip_guards
 from . import c06, c09
@@ -21,6 +21,9 @@ def analyse(fam, shape, placement, outcomes):
                               d or "%d guard(s) dominate the writes they protect: None guards, length guards (!= exact, > padded / "
                               "length-field bound = max(type)+offset), case-data guards" % len(want), "C16"))
                 # every guard raises SerializationError (the extractor only recognises guards whose body is that raise)
+                cs = objrules.ctor_store_rules(cn, cls)
+                out.append(ob("C16.S2 constructor-stores-its-arguments-unchanged", shape, placement, o, cn, not cs,
+                              "; ".join(x[2] for x in cs[:2]) or "every field holds the parameter itself (arrays: its tuple); None stays None", "C16"))
         except ValueError as e:
             out.append(ob("C16.S0 reference-defined", shape, placement, o, "T", False, str(e), "C16"))
     return out
